@@ -1064,8 +1064,22 @@ inline bool Transport::setReadMode(SessionId sid, ReadMode mode)
       oldMode = it->second;
     }
 
-    // If NOT switching from Sync to Async, update mode directly
-    if (!(oldMode == ReadMode::Sync && mode == ReadMode::Async))
+    // Bytes buffered by an earlier Sync phase are still owed to the application: a
+    // switch to Async hands them over first, also when a Disabled phase lies in
+    // between (Sync -> Disabled -> Async would otherwise strand them in the buffer
+    // while later bytes are delivered).
+    // (Only for a session that still has a mode entry: once the session has closed
+    // the entry is gone, what is left in its buffer belongs to late synchronous
+    // readers, and no data callback may run any more.)
+    bool buffered = false;
+    if (mode == ReadMode::Async && it != _impl->readModes.end() && oldMode != ReadMode::Sync)
+    {
+      auto bufIt = _impl->receiveBuffers.find(sid);
+      buffered = bufIt != _impl->receiveBuffers.end() && !bufIt->second->data.empty();
+    }
+
+    // If NOT switching to Async with a flush to do, update mode directly
+    if (!(mode == ReadMode::Async && (oldMode == ReadMode::Sync || buffered)))
     {
       _impl->readModes[sid] = mode;
 
@@ -1081,9 +1095,10 @@ inline bool Transport::setReadMode(SessionId sid, ReadMode mode)
     }
   } // syncMutex released
 
-  // Step 2: Sync→Async transition with ordered flush.
-  // Keep mode as Sync during flush so the I/O thread continues buffering
-  // any data that arrives mid-flush. Drain in a loop until empty.
+  // Step 2: Sync→Async transition (or Disabled→Async with bytes left over from a
+  // Sync phase) with ordered flush.
+  // Keep the old mode during flush so the I/O thread continues buffering (Sync)
+  // or dropping (Disabled) any data that arrives mid-flush. Drain in a loop until empty.
   DataCallback cb;
   {
     std::lock_guard<std::mutex> cbLk(_impl->callbackMutex);
